@@ -118,7 +118,8 @@ for rel in FILES:
                 # note: every passing summary line reads "... 0 failed; ...", so only a non-zero count means failure
                 if rc == 124 or 'FAILED' in out or 'error' in out or 'panicked' in out or re.search(r'\b[1-9]\d* failed', out) \
                         or 'test result' not in out or out.count('test result') < N_RESULT_LINES:
-                    verdict = 'KILLED-BY-TESTS'
+                    # const-evaluation / type errors that only the test build instantiates are compile failures too
+                    verdict = 'NOCOMPILE (test build)' if 'error[E' in out else 'KILLED-BY-TESTS'
                 else:
                     verdict = ''
                     for p in props:
